@@ -16,61 +16,119 @@ use std::collections::{BTreeMap, HashMap};
 pub const NAME: &str = "fsm2";
 
 // ------------------------------------------------------------------------------------------ payloads
-fn mk_point(k: u64) -> Point { Point::Specific(k, vec![k as u8]) }
+// Every payload value is built from ONE token over the full width of its Rust type and rendered back to
+// exactly that token (injective), so a state machine that narrows, masks or swaps a carried value
+// (cookie u16, amount u8, size u32, slots / block numbers / versions u64) shows up in the reply.
+fn mk_point(k: u64) -> Point { Point::Specific(k, k.to_be_bytes().to_vec()) }
 fn sh_point(p: &Point) -> String {
-    match p { Point::Specific(s, h) if h == &vec![*s as u8] => s.to_string(), Point::Origin => "origin".into(), _ => "?".into() }
+    match p { Point::Specific(s, h) if h[..] == s.to_be_bytes() => s.to_string(), Point::Origin => "origin".into(), _ => "?".into() }
 }
-fn mk_points(k: u64) -> Vec<Point> { vec![mk_point(k), mk_point(k + 100)] }
+fn mk_points(k: u64) -> Vec<Point> { vec![mk_point(k), mk_point(k.wrapping_add(100))] }
 fn sh_points(v: &[Point]) -> String {
-    if v.len() == 2 && sh_point(&v[0]) != "?" && v[1] == mk_point(v[0].slot_or_default() + 100) { sh_point(&v[0]) } else { "?".into() }
+    if v.len() == 2 && sh_point(&v[0]) != "?" && v[1] == mk_point(v[0].slot_or_default().wrapping_add(100)) { sh_point(&v[0]) } else { "?".into() }
 }
-fn mk_range(k: u64) -> (Point, Point) { (mk_point(k), mk_point(k + 100)) }
+fn mk_range(k: u64) -> (Point, Point) { (mk_point(k), mk_point(k.wrapping_add(100))) }
 fn sh_range(r: &(Point, Point)) -> String { sh_points(&[r.0.clone(), r.1.clone()]) }
-fn mk_bytes(k: u64) -> Vec<u8> { vec![k as u8; 3] }
-fn sh_bytes(b: &[u8]) -> String { if b.len() == 3 && b.iter().all(|x| *x == b[0]) { b[0].to_string() } else { "?".into() } }
-fn mk_tip(k: u64) -> p2::chainsync::Tip { p2::chainsync::Tip(mk_point(k), k + 7) }
-fn sh_tip(t: &p2::chainsync::Tip) -> String { if t.1 == t.0.slot_or_default() + 7 { sh_point(&t.0) } else { "?".into() } }
-fn mk_any(k: u64) -> AnyCbor { AnyCbor::from_raw_bytes(vec![0x18, k as u8]) }
-fn sh_any(a: &AnyCbor) -> String { let b = a.raw_bytes(); if b.len() == 2 && b[0] == 0x18 { b[1].to_string() } else { "?".into() } }
-fn mk_anys(k: u64) -> Vec<AnyCbor> { vec![mk_any(k), mk_any(k + 100)] }
+fn mk_bytes(k: u64) -> Vec<u8> { k.to_be_bytes().to_vec() }
+fn sh_bytes(b: &[u8]) -> String { match <[u8; 8]>::try_from(b) { Ok(a) => u64::from_be_bytes(a).to_string(), Err(_) => "?".into() } }
+fn mk_tip(k: u64) -> p2::chainsync::Tip { p2::chainsync::Tip(mk_point(k), k.wrapping_add(7)) }
+fn sh_tip(t: &p2::chainsync::Tip) -> String { if t.1 == t.0.slot_or_default().wrapping_add(7) { sh_point(&t.0) } else { "?".into() } }
+fn mk_any(k: u64) -> AnyCbor { let mut v = vec![0x1b]; v.extend(k.to_be_bytes()); AnyCbor::from_raw_bytes(v) }
+fn sh_any(a: &AnyCbor) -> String { let b = a.raw_bytes(); if b.len() == 9 && b[0] == 0x1b { sh_bytes(&b[1..]) } else { "?".into() } }
+fn mk_anys(k: u64) -> Vec<AnyCbor> { vec![mk_any(k), mk_any(k.wrapping_add(100))] }
 fn sh_anys(v: &[AnyCbor]) -> String {
-    if v.len() == 2 && sh_any(&v[0]) != "?" && v[1] == mk_any(v[0].raw_bytes()[1] as u64 + 100) { sh_any(&v[0]) } else { "?".into() }
+    if v.len() == 2 && sh_any(&v[0]) != "?" && v[1] == mk_any(sh_any(&v[0]).parse::<u64>().unwrap_or(0).wrapping_add(100)) { sh_any(&v[0]) } else { "?".into() }
 }
-fn mk_bitmaps(k: u64) -> p2::leiosfetch::Bitmaps { let mut m = BTreeMap::new(); m.insert(k as u16, k + 1); p2::leiosfetch::Bitmaps(m) }
+fn mk_bitmaps(k: u64) -> p2::leiosfetch::Bitmaps { let mut m = BTreeMap::new(); m.insert(k as u16, k); p2::leiosfetch::Bitmaps(m) }
 fn sh_bitmaps(b: &p2::leiosfetch::Bitmaps) -> String {
-    if b.0.len() == 1 { let (k, v) = b.0.iter().next().unwrap(); if *v == *k as u64 + 1 { return k.to_string(); } }
+    if b.0.len() == 1 { let (k, v) = b.0.iter().next().unwrap(); if *k == *v as u16 { return v.to_string(); } }
     "?".into()
 }
+/// 48 bits: IPv4 address = low 32 bits, port = bits 32..48
 fn mk_peers(k: u64) -> Vec<p2::peersharing::PeerAddress> {
-    vec![p2::peersharing::PeerAddress::V4(std::net::Ipv4Addr::from(k as u32), k as u16)]
+    vec![p2::peersharing::PeerAddress::V4(std::net::Ipv4Addr::from(k as u32), (k >> 32) as u16)]
 }
 fn sh_peers(v: &[p2::peersharing::PeerAddress]) -> String {
-    match v { [p2::peersharing::PeerAddress::V4(a, port)] if a.to_bits() == *port as u32 => port.to_string(), _ => "?".into() }
+    match v { [p2::peersharing::PeerAddress::V4(a, port)] => (a.to_bits() as u64 | (*port as u64) << 32).to_string(), _ => "?".into() }
 }
-fn mk_bodies(k: u64) -> Vec<p2::txsubmission::EraTxBody> { vec![p2::txsubmission::EraTxBody(k as u16, vec![k as u8])] }
+fn mk_bodies(k: u64) -> Vec<p2::txsubmission::EraTxBody> { vec![p2::txsubmission::EraTxBody(k as u16, mk_bytes(k))] }
 fn sh_bodies(v: &[p2::txsubmission::EraTxBody]) -> String {
-    match v { [] => "Vec::new".into(), [b] if b.1 == vec![b.0 as u8] => b.0.to_string(), _ => "?".into() }
+    match v { [] => "Vec::new".into(), [b] if sh_bytes(&b.1) != "?" && b.0 == sh_bytes(&b.1).parse::<u64>().unwrap_or(0) as u16 => sh_bytes(&b.1), _ => "?".into() }
 }
-fn mk_ids(k: u64) -> Vec<p2::txsubmission::EraTxId> { vec![p2::txsubmission::EraTxId(k as u16, vec![k as u8])] }
+fn mk_ids(k: u64) -> Vec<p2::txsubmission::EraTxId> { vec![p2::txsubmission::EraTxId(k as u16, mk_bytes(k))] }
 fn mk_idsizes(k: u64) -> Vec<p2::txsubmission::TxIdAndSize<p2::txsubmission::EraTxId>> {
-    vec![p2::txsubmission::TxIdAndSize(p2::txsubmission::EraTxId(k as u16, vec![k as u8]), k as u32)]
+    vec![p2::txsubmission::TxIdAndSize(p2::txsubmission::EraTxId(k as u16, mk_bytes(k)), k as u32)]
 }
-type VT = p2::handshake::VersionTable<u32>;
-fn mk_vt(k: u64) -> VT { let mut values = HashMap::new(); values.insert(k, k as u32 + 1); p2::handshake::VersionTable { values } }
+type VT = p2::handshake::VersionTable<u64>;
+fn mk_vt(k: u64) -> VT { let mut values = HashMap::new(); values.insert(k, k.wrapping_add(1)); p2::handshake::VersionTable { values } }
 fn sh_vt(t: &VT) -> String {
-    if t.values.len() == 1 { let (k, v) = t.values.iter().next().unwrap(); if *v as u64 == *k + 1 { return k.to_string(); } }
+    if t.values.len() == 1 { let (k, v) = t.values.iter().next().unwrap(); if *v == k.wrapping_add(1) { return k.to_string(); } }
     "?".into()
 }
-fn mk_refuse(k: u64) -> p2::handshake::RefuseReason { p2::handshake::RefuseReason::VersionMismatch(vec![k, k + 1]) }
+fn mk_refuse(k: u64) -> p2::handshake::RefuseReason { p2::handshake::RefuseReason::VersionMismatch(vec![k, k.wrapping_add(1)]) }
 fn sh_refuse(r: &p2::handshake::RefuseReason) -> String {
-    match r { p2::handshake::RefuseReason::VersionMismatch(v) if v.len() == 2 && v[1] == v[0] + 1 => v[0].to_string(), _ => "?".into() }
+    match r { p2::handshake::RefuseReason::VersionMismatch(v) if v.len() == 2 && v[1] == v[0].wrapping_add(1) => v[0].to_string(), _ => "?".into() }
+}
+
+/// width of a payload field (tokens are drawn from the boundary set of that width)
+#[derive(Clone, Copy, PartialEq)]
+enum K { U8, U16, U32, U48, U64, Small }
+
+fn msg_kinds(proto: &str, cls: &str) -> &'static [K] {
+    use K::*;
+    match (proto, cls) {
+        ("blockfetch", "RequestRange") | ("blockfetch", "Block") => &[U64],
+        ("chainsync", "RollForward") | ("chainsync", "RollBackward") | ("chainsync", "IntersectFound") => &[U64, U64],
+        ("chainsync", "FindIntersect") | ("chainsync", "IntersectNotFound") => &[U64],
+        ("handshake", "Accept") => &[U64, U64],
+        ("handshake", _) => &[U64],
+        ("keepalive", "KeepAlive") | ("keepalive", "ResponseKeepAlive") => &[U16],
+        ("leiosfetch", "BlockRequest") | ("leiosfetch", "Block") => &[U64],
+        ("leiosfetch", "BlockTxsRequest") => &[U64, U64],
+        ("leiosfetch", "BlockTxs") => &[U64, U64, U64],
+        ("leiosnotify", "BlockOffer") => &[U64, U32],
+        ("leiosnotify", "BlockAnnouncement") | ("leiosnotify", "BlockTxsOffer") | ("leiosnotify", "Votes") => &[U64],
+        ("peersharing", "ShareRequest") => &[U8],
+        ("peersharing", "SharePeers") => &[U48],
+        ("txsubmission", "RequestTxIds(true)") | ("txsubmission", "RequestTxIds(false)") => &[Small, U16, U16],
+        ("txsubmission", "ReplyTxIds") | ("txsubmission", "RequestTxs") | ("txsubmission", "ReplyTxs") => &[U64],
+        _ => &[],
+    }
+}
+
+/// payload fields of the states built by `init` (sub-enum selectors stay small: 0 = the empty variant)
+fn state_kinds(proto: &str, cls: &str) -> &'static [K] {
+    use K::*;
+    match (proto, cls) {
+        ("blockfetch", "Busy") => &[U64],
+        ("chainsync", "Intersect") => &[U64],
+        ("handshake", "Confirm") => &[U64],
+        ("keepalive", "Server") => &[U16],
+        ("leiosfetch", "AwaitingBlock") => &[U64],
+        ("leiosfetch", "AwaitingBlockTxs") => &[U64, U64],
+        ("peersharing", "Busy") => &[U8],
+        ("txsubmission", "Txs") => &[U64],
+        (_, _) => &[Small, Small, Small],
+    }
+}
+
+fn boundary(g: &mut Gen, k: K, lo: u64) -> u64 {
+    let small = lo + g.rng.below(40);
+    let max = match k { K::U8 => 0xff, K::U16 => 0xffff, K::U32 => 0xffff_ffff, K::U48 => 0xffff_ffff_ffff, K::U64 => u64::MAX, K::Small => return small };
+    if g.rng.chance(1, 2) { return small.min(max); }
+    let cands: [u64; 22] = [127, 128, 254, 255, 256, 257, 32767, 32768, 65534, 65535, 65536, 65537, (1 << 31) + small, u32::MAX as u64,
+        1 << 32, (1 << 32) + small, (1 << 47) + small, (1 << 48) - 1, (1 << 63) - 1, (1 << 63) + small, u64::MAX - small, u64::MAX];
+    let fit: Vec<u64> = cands.iter().copied().filter(|c| *c <= max).collect();
+    // the largest values of the width are the most interesting ones: pick from the top half twice as often
+    let i = if g.rng.chance(1, 2) { fit.len() / 2 + g.rng.below((fit.len() - fit.len() / 2) as u64) as usize } else { g.rng.below(fit.len() as u64) as usize };
+    fit[i]
 }
 
 // ------------------------------------------------------------------------------------------ machines
 enum M {
     Bf(p2::blockfetch::State),
-    Cs(p2::chainsync::State<u32>),
-    Hs(p2::handshake::State<u32>),
+    Cs(p2::chainsync::State<u64>),
+    Hs(p2::handshake::State<u64>),
     Ka(p2::keepalive::State),
     Lf(p2::leiosfetch::State),
     Ln(p2::leiosnotify::State),
@@ -105,7 +163,7 @@ fn init_of(proto: &str, cls: &str, k: &[u64]) -> Option<M> {
         ("chainsync", "Idle") => M::Cs(chainsync::State::Idle(match t(k, 0) % 3 {
             0 => chainsync::Data::New,
             1 => chainsync::Data::Drained,
-            _ => chainsync::Data::Content(t(k, 0) as u32, mk_tip(t(k, 0))),
+            _ => chainsync::Data::Content(t(k, 0), mk_tip(t(k, 0))),
         })),
         ("chainsync", "CanAwait") => M::Cs(chainsync::State::CanAwait),
         ("chainsync", "MustReply") => M::Cs(chainsync::State::MustReply),
@@ -245,7 +303,7 @@ impl M {
                 let m = match cls {
                     "RequestNext" => chainsync::Message::RequestNext,
                     "AwaitReply" => chainsync::Message::AwaitReply,
-                    "RollForward" => chainsync::Message::RollForward(t(k, 0) as u32, mk_tip(t(k, 1))),
+                    "RollForward" => chainsync::Message::RollForward(t(k, 0), mk_tip(t(k, 1))),
                     "RollBackward" => chainsync::Message::RollBackward(mk_point(t(k, 0)), mk_tip(t(k, 1))),
                     "FindIntersect" => chainsync::Message::FindIntersect(mk_points(t(k, 0))),
                     "IntersectFound" => chainsync::Message::IntersectFound(mk_point(t(k, 0)), mk_tip(t(k, 1))),
@@ -258,7 +316,7 @@ impl M {
             M::Hs(s) => {
                 let m = match cls {
                     "Propose" => handshake::Message::Propose(mk_vt(t(k, 0))),
-                    "Accept" => handshake::Message::Accept(t(k, 0), t(k, 1) as u32),
+                    "Accept" => handshake::Message::Accept(t(k, 0), t(k, 1)),
                     "Refuse" => handshake::Message::Refuse(mk_refuse(t(k, 0))),
                     "QueryReply" => handshake::Message::QueryReply(mk_vt(t(k, 0))),
                     _ => return None,
@@ -331,14 +389,19 @@ use fsm_spec::{PSpec, SPEC_N2 as SPEC};
 fn spec_of(name: &str) -> Option<&'static PSpec> { SPEC.iter().find(|s| s.name == name) }
 
 // ------------------------------------------------------------------------------------------ generator
-fn toks(g: &mut Gen, n: usize, lo: u64) -> String {
-    // distinct tokens, message fields 1..=40, state fields 50..=90 (never equal, so "carried" is observable)
-    let mut used: Vec<u64> = vec![];
-    while used.len() < n {
-        let v = lo + g.rng.below(40);
-        if !used.contains(&v) { used.push(v); }
+/// distinct tokens, one per field, from the boundary set of the field's width; message fields start at
+/// 1, state fields at 50 and `used` is shared, so no two tokens of a case are equal ("carried" is observable)
+fn toks(g: &mut Gen, kinds: &[K], n: usize, lo: u64, used: &mut Vec<u64>) -> String {
+    let mut out = String::new();
+    for i in 0..n {
+        let k = kinds.get(i).copied().unwrap_or(K::Small);
+        let mut v = boundary(g, k, lo);
+        let mut tries = 0;
+        while used.contains(&v) { tries += 1; v = if tries > 20 { lo + 41 + used.len() as u64 } else { boundary(g, k, lo) }; }
+        used.push(v);
+        out += &format!(" {v}");
     }
-    used.iter().map(|v| format!(" {v}")).collect()
+    out
 }
 
 pub fn generate(g: &mut Gen) {
@@ -346,9 +409,13 @@ pub fn generate(g: &mut Gen) {
     for sp in SPEC {
         for (st, sn) in sp.states {
             for (m, mn) in sp.msgs {
-                let a = format!("init {} {}{}", sp.name, st, toks(g, *sn, 50));
-                let b = format!("msg {}{}", m, toks(g, *mn, 1));
-                g.case(vec![a, b]);
+                // each pair several times: small tokens, and the extremes of every field's width
+                for _ in 0..3 {
+                    let mut used = vec![];
+                    let a = format!("init {} {}{}", sp.name, st, toks(g, state_kinds(sp.name, st), *sn, 50, &mut used));
+                    let b = format!("msg {}{}", m, toks(g, msg_kinds(sp.name, m), *mn, 1, &mut used));
+                    g.case(vec![a, b]);
+                }
             }
         }
     }
@@ -368,7 +435,8 @@ pub fn generate(g: &mut Gen) {
                 sp.msgs[g.rng.below(sp.msgs.len() as u64) as usize].0
             };
             let mn = sp.msgs.iter().find(|x| x.0 == m).unwrap().1;
-            ops.push(format!("msg {}{}", m, toks(g, mn, 1)));
+            let mut used = vec![];
+            ops.push(format!("msg {}{}", m, toks(g, msg_kinds(sp.name, m), mn, 1, &mut used)));
             if let Some((n, _)) = sp.step(cur, m) { cur = n; }
         }
         g.case(ops);
